@@ -416,7 +416,7 @@ impl WorldGen {
                 let (who, args) = match mode {
                     0..=3 => (self.user(), format!("{} - -", self.r.pick(&["-", "0", "1"]))),
                     4..=6 => {
-                        let rcv = if !refundable.is_empty() { self.r.pick(&refundable).receiver.clone() } else { self.s.native_users[0].clone() };
+                        let rcv = if !refundable.is_empty() && self.r.chance(60) { self.r.pick(&refundable).receiver.clone() } else { self.s.native_users[(self.r.below(2)) as usize].clone() };
                         (self.user(), format!("{} - {}", self.r.pick(&["-", "0", "1"]), hs(&rcv)))
                     }
                     7 | 8 => {
@@ -434,6 +434,9 @@ impl WorldGen {
                             }
                             (admin.clone(), format!("- {} {}", s_list(&ids, |x| x.to_string()), hs(&p0.receiver)))
                         } else {
+                            if v.pkts.iter().any(|p| p.sequence == 1 && p.status == staking::state::ibc::PacketLifecycleStatus::Sent) {
+                                self.flags.forced_recovery = true;
+                            }
                             (admin.clone(), "- [1] -".to_string())
                         }
                     }
@@ -727,6 +730,53 @@ impl WorldGen {
         }
         self.w.ops.push(format!("query requests {}", hs(&addr(CHAIN_PREFIX, "nobody", 20))));
         self.w.ops.push("query replyq - -".to_string());
+    }
+
+    /// Scripted prelude reproducing the recorded finding F4 (C02): the admin re-bases to (staked > 0, LST = 0),
+    /// the next stake sweeps the "ownerless" stake into the fee balance although the contract does not hold it.
+    pub fn scripted_sweep(&mut self) {
+        let admin = self.s.admin.clone();
+        self.w.tick(1_000_000_000);
+        self.w.exec(Some(0), &admin, vec![], "resume 12345 0 0");
+        let u = self.s.users[0].clone();
+        self.w.faucet(&u, D, 1_000_000);
+        self.w.tick(1_000_000_000);
+        self.w.exec(Some(1), &u, vec![Coin::new(5000u128, D)], "stake - - -");
+    }
+
+    /// World-level observation after an event: the simulator's own ledgers, for the world monitors.
+    pub fn snapshot(&mut self, out: &mut String) {
+        let nsteps = self.w.ops.iter().filter(|l| !(l.starts_with("tx_") || l.starts_with("cfg ") || l.starts_with('#'))).count();
+        let lst = self.s.lst();
+        let me = self.s.me.clone();
+        out.push_str(&format!(
+            "snap {} {} {} {} {} {}\n",
+            nsteps,
+            self.w.now_ns,
+            s_bool(self.flags.routing_changed),
+            s_bool(self.flags.forced_recovery),
+            s_bool(self.flags.dishonest_operator),
+            s_bool(self.w.last_tx_ok)
+        ));
+        out.push_str(&format!("cbal {} {}\n", self.w.chain.bal(&me, D), self.w.chain.bal(&me, &lst)));
+        out.push_str(&format!("sup {}\n", self.w.chain.supply.get(&lst).copied().unwrap_or(0)));
+        out.push_str(&format!("esc {} {}\n", self.w.chain.bal(ESCROW, D), self.w.chain.bal(ESCROW, &lst)));
+        out.push_str(&format!("nat {} {}\n", self.w.chain.nbal(&self.s.staker, D), self.w.chain.nbal(&self.s.collector, D)));
+        for p in self.w.chain.packets.values() {
+            out.push_str(&format!(
+                "pkt {} {} {} {} {} {}\n",
+                p.seq,
+                match p.state {
+                    PState::Flight => "flight",
+                    PState::Delivered => "delivered",
+                    PState::Refunded => "refunded",
+                },
+                hs(&p.denom),
+                p.amount,
+                hs(&p.receiver),
+                p.origin
+            ));
+        }
     }
 
     /// Read-only probes appended to the contract-level op stream.
